@@ -215,10 +215,49 @@ pub fn build(seed: u64, tier: Tier) -> Corpus {
     }
     // hand-written cycles through options, repetitions, choices and skip rules
     let cyc = "a = { \"a\" ~ b* }\nb = { \"b\" ~ c? }\nc = { a+ | \"(\" ~ d ~ \")\" }\nd = _{ (c | e)* }\ne = ${ \"e\" ~ a? }\nWHITESPACE = _{ \" \" }\nCOMMENT = { \"#\" ~ (!\"#\" ~ ANY)* ~ \"#\" }";
+    // a long top-down cycle through sequences, choices and options only, leaf rules last
+    let expr = "expr = { term ~ (add_op ~ term)* }\nterm = { factor ~ (mul_op ~ factor)* }\nfactor = { neg? ~ primary }\nprimary = { paren | number | ident }\nparen = { \"(\" ~ expr ~ \")\" }\nnumber = @{ ASCII_DIGIT+ }\nident = @{ ASCII_ALPHA+ }\nadd_op = { \"+\" | \"-\" }\nmul_op = { \"*\" | \"/\" }\nneg = { \"-\" }\nWHITESPACE = _{ \" \" }";
+    for (vn, opts) in OPTION_SETS {
+        let mut s = Spec::new(&format!("optex_{}", vn), "options", expr);
+        s.options = opts.iter().map(|o| o.to_string()).collect();
+        specs.push(s);
+    }
+    // the kind-nesting family without the optimizer: rule kinds are translated twice in the
+    // generator (raw and optimised AST)
+    let atom = atomicity_grammar(true, true, false).replace("\"x\"+", "\"x\"*");
+    for (vn, opts) in [OPTION_SETS[0], OPTION_SETS[6]] {
+        let mut s = Spec::new(&format!("optat_{}", vn), "options", &atom);
+        s.options = opts.iter().map(|o| o.to_string()).collect();
+        specs.push(s);
+    }
     for (vn, opts) in OPTION_SETS {
         let mut s = Spec::new(&format!("optcy_{}", vn), "options", cyc);
         s.options = opts.iter().map(|o| o.to_string()).collect();
         specs.push(s);
+    }
+    // Unicode property family (C01, C02, C09): one rule per property name; all names in the
+    // thorough tier, a seed-rotated slice of 48 in the quick tier
+    {
+        let names: Vec<&str> = pest::unicode::unicode_property_names().collect();
+        let per = 48;
+        let chunks: Vec<&[&str]> = names.chunks(per).collect();
+        let picked: Vec<usize> = match tier {
+            Tier::Quick => vec![(seed as usize) % chunks.len()],
+            Tier::Thorough => (0..chunks.len()).collect(),
+        };
+        for k in picked {
+            let mut text = String::new();
+            for (i, n) in chunks[k].iter().enumerate() {
+                match i % 3 {
+                    0 => text.push_str(&format!("p_{} = {{ {}+ }}\n", n.to_lowercase(), n)),
+                    1 => text.push_str(&format!("p_{} = {{ \"<\" ~ {} ~ (!{} ~ ANY)? }}\n", n.to_lowercase(), n, n)),
+                    _ => text.push_str(&format!("p_{} = @{{ ({} | \"_\")* ~ ANY? }}\n", n.to_lowercase(), n)),
+                }
+            }
+            if Grammar::parse(&text).is_ok() {
+                specs.push(Spec::new(&format!("uni{:02}", k), "unicode", &text));
+            }
+        }
     }
     specs.push(crate::arity::spec());
     // getter family (C16)
